@@ -480,6 +480,8 @@ Stored(c, v) ==
 \* magic bytes (offset 0..3) that a reader must insist on; CTPK: the statement demands nothing
 ChecksMagic(c) == c \in {"bch", "cgfx", "tpl"}
 
+MagicOK(c, f) == CASE c = "bch" -> BchMagicOK(f) [] c = "cgfx" -> CgfxMagicOK(f)
+                   [] c = "tpl" -> TplMagicOK(f) [] c = "ctpk" -> TRUE
 \* the expected reading of File(c, v, p): out = sequence of [name, w, h, pixels]
 ReadOK(c, v, out) ==
   /\ Len(out) = Len(v)
